@@ -19,7 +19,7 @@ ID = "C18"
 LEVEL = "exploration"
 RULE = ("fixed battery (trees, documents with 2-8 multi-name dependencies, HTMLTextDocument extraction with duplicates, head_content "
         "sets, JSX components, css(), class-helper histories, attribute-merging programs) rendered in child processes with different "
-        "PYTHONHASHSEED (quick: 0..7; thorough: 32 values incl. 'random') and, inside each child, forward / reversed / shuffled / "
+        "PYTHONHASHSEED (quick: 0..7; thorough: 48 values incl. 'random') and, inside each child, forward / reversed / shuffled / "
         "interleaved with unrelated renders, plus single items in fresh processes. A case is (battery item, process, order); "
         "non-trivial = the item involves >=3 string keys (dependency names, attributes, class tokens or props); distinct by item digest")
 ASSUMPTIONS = ["the battery is fixed by the seed; a hash-seed-dependent behaviour must show within the seeds tried"]
@@ -167,8 +167,8 @@ def run(ctx):
     from .. import gen
     from concurrent.futures import ThreadPoolExecutor
 
-    n = 153 if not ctx.thorough else 1503
-    hashseeds = [0, 1, 2, 3, 4, 5, 6, 7] if not ctx.thorough else list(range(0, 24)) + [4242, 99999, 2**31, "random", "random", "random", "random", "random"]
+    n = 153 if not ctx.thorough else 4005
+    hashseeds = [0, 1, 2, 3, 4, 5, 6, 7] if not ctx.thorough else list(range(0, 36)) + [4242, 99999, 2**31, 4294967295, "random", "random", "random", "random", "random", "random", "random", "random"]
     items = battery(ctx.seed, n)
     with ThreadPoolExecutor(max_workers=14) as ex:
         outs = list(ex.map(lambda hs: spawn(hs, ctx.seed, n, "all"), hashseeds))
